@@ -75,11 +75,14 @@ class Unit:
     generate: Callable[[Path], dict]  # fills dir with a crate; returns info dict (rewrites, slices)
     harnesses: list
     kani_flags: tuple = ()
-    jobs: int = 6
-    mem_gb: int = 20
+    jobs: int = 4          # harnesses in parallel inside one kani-driver
+    workers: int = 4       # independent kani-driver processes (own target dir each; the driver keeps ~1.5 GB per harness it ran)
+    mem_gb: int = 14       # per-cbmc RSS cap enforced by the watchdog
     # sub-directory of the generated dir in which to run cargo kani
     crate_subdir: str = "."
     package: Optional[str] = None
+    # module path of the harness functions inside the generated crate ("verif::c18::"), needed by --exact
+    harness_prefix: str = ""
 
 
 @dataclass
@@ -185,30 +188,63 @@ def kani_cmd(unit: Unit, target: Path, harnesses: list, export: Path, timeout_s:
     cmd += ["--harness-timeout", f"{timeout_s}s", "--export-json", str(export)]
     cmd += list(extra)
     for h in harnesses:
-        cmd += ["--harness", h.name]
+        cmd += ["--harness", unit.harness_prefix + h.name]
     cmd += ["--exact"]
     return cmd
 
 
-def run_shell(cmd, cwd, timeout, mem_gb=None, logfile=None):
-    pre = ""
-    if mem_gb:
-        pre = f"ulimit -v {int(mem_gb * 1024 * 1024)}; "
-    sh = pre + " ".join(shquote(c) for c in cmd)
+def _watchdog(stop, cwd, mem_gb):
+    """Kill any cbmc process whose RSS exceeds mem_gb, and the largest one when the machine runs low."""
+    import threading
+    while not stop.wait(5.0):
+        try:
+            out = subprocess.run(["ps", "-eo", "pid,rss,comm"], capture_output=True, text=True).stdout
+            procs = []
+            for l in out.splitlines()[1:]:
+                f = l.split()
+                if len(f) >= 3 and f[2] == "cbmc":
+                    procs.append((int(f[1]), int(f[0])))
+            procs.sort(reverse=True)
+            for rss, pid in procs:
+                if rss > mem_gb * 1024 * 1024:
+                    os.kill(pid, 9)
+            avail = 0
+            for l in open("/proc/meminfo"):
+                if l.startswith("MemAvailable:"):
+                    avail = int(l.split()[1])
+            if avail and avail < 3 * 1024 * 1024 and procs:
+                os.kill(procs[0][1], 9)
+        except Exception:
+            pass
+
+
+def run_shell(cmd, cwd, timeout, mem_gb=None, logfile=None, env=None):
+    import threading
+    sh = " ".join(shquote(c) for c in cmd)
     t0 = time.time()
+    stop = threading.Event()
+    wd = None
+    if mem_gb:
+        wd = threading.Thread(target=_watchdog, args=(stop, cwd, mem_gb), daemon=True)
+        wd.start()
     try:
-        p = subprocess.run(["bash", "-c", sh], cwd=cwd, env=ENV, stdout=subprocess.PIPE,
-                           stderr=subprocess.STDOUT, timeout=timeout, text=True, errors="replace")
-        out, rc = p.stdout, p.returncode
-    except subprocess.TimeoutExpired as e:
-        out = (e.stdout or b"")
-        if isinstance(out, bytes):
-            out = out.decode(errors="replace")
-        rc = -9
-        subprocess.run(["pkill", "-9", "-f", str(cwd)], check=False)
+        p = subprocess.Popen(["bash", "-c", sh], cwd=cwd, env=env or ENV, stdout=subprocess.PIPE,
+                             stderr=subprocess.STDOUT, text=True, errors="replace", start_new_session=True)
+        try:
+            out, _ = p.communicate(timeout=timeout)
+            rc = p.returncode
+        except subprocess.TimeoutExpired:
+            try:
+                os.killpg(p.pid, 9)
+            except Exception:
+                pass
+            out, _ = p.communicate()
+            rc = -9
+    finally:
+        stop.set()
     if logfile:
-        Path(logfile).write_text(out)
-    return rc, out, time.time() - t0
+        Path(logfile).write_text(out or "")
+    return rc, out or "", time.time() - t0
 
 
 def shquote(s):
@@ -239,22 +275,37 @@ def run_unit(unit: Unit, tier: str, seed: int, workroot: Path, only: Optional[se
     if not hs:
         return info, {}, ""
 
+    # split into worker groups: longest-timeout first, round-robin
+    nw = max(1, min(unit.workers, (len(hs) + 1) // 2))
+    order = sorted(hs, key=lambda h: -h.timeout_s)
+    groups = [order[i::nw] for i in range(nw)]
+    results, outs, cmds, rcs = {}, [], [], []
+    import threading
     lock = _unit_lock(unit)
     try:
-        target = CACHE / "target" / unit.name
-        export = gen_dir / "kani-export.json"
-        max_to = max(h.timeout_s for h in hs)
-        cmd = kani_cmd(unit, target, hs, export, max_to)
-        # overall cap: build time + harnesses in waves
-        waves = (len(hs) + unit.jobs - 1) // unit.jobs
-        overall = 1200 + waves * (max_to + 30)
-        rc, out, wall = run_shell(cmd, crate_dir, overall, mem_gb=unit.mem_gb, logfile=gen_dir / "kani.log")
+        def work(i, grp):
+            target = CACHE / "target" / f"{unit.name}-w{i}"
+            export = gen_dir / f"kani-export-{i}.json"
+            max_to = max(h.timeout_s for h in grp)
+            cmd = kani_cmd(unit, target, grp, export, max_to)
+            waves = (len(grp) + unit.jobs - 1) // unit.jobs
+            overall = 1500 + waves * (max_to + 60)
+            rc, out, wall = run_shell(cmd, crate_dir, overall, mem_gb=unit.mem_gb, logfile=gen_dir / f"kani-{i}.log")
+            results.update(parse_results(grp, export, out, wall))
+            outs.append(out)
+            cmds.append(" ".join(cmd))
+            rcs.append(rc)
+        ths = [threading.Thread(target=work, args=(i, g)) for i, g in enumerate(groups)]
+        for t in ths:
+            t.start()
+        for t in ths:
+            t.join()
     finally:
         lock.close()
-    results = parse_results(hs, export, out, wall)
-    info["kani_cmd"] = " ".join(cmd)
-    info["kani_rc"] = rc
-    return info, results, out
+    info["kani_cmd"] = cmds[0] if cmds else ""
+    info["kani_workers"] = len(groups)
+    info["kani_rc"] = rcs
+    return info, results, "\n".join(outs)
 
 
 def parse_results(hs, export: Path, out: str, wall: float):
@@ -331,12 +382,12 @@ def concrete_playback(unit: Unit, crate_dir: Path, harness: str, workroot: Path)
     """Ask Kani for the concrete values of a failing harness and run them natively.
 
     Returns dict(values=<test source>, reproduced=True|False|None, detail=str)."""
-    target = CACHE / "target" / unit.name
+    target = CACHE / "target" / f"{unit.name}-w0"
     cmd = ["cargo", "kani", "-Z", "unstable-options", "-Z", "concrete-playback",
            "--concrete-playback=print"] + list(unit.kani_flags)
     if unit.package:
         cmd += ["-p", unit.package]
-    cmd += ["--target-dir", str(target), "--harness", harness, "--exact"]
+    cmd += ["--target-dir", str(target), "--harness", unit.harness_prefix + harness, "--exact"]
     lock = _unit_lock(unit)
     try:
         rc, out, _ = run_shell(cmd, crate_dir, 1500, mem_gb=unit.mem_gb)
@@ -377,3 +428,32 @@ def native_playback(unit: Unit, gen_dir: Path, harness_file: Path, tests: list, 
     if okd:
         return False, "generated tests pass natively: counterexample does not reproduce"
     return None, "playback did not run: " + "\n".join(out.splitlines()[-15:])
+
+
+# --------------------------------------------------------------------------- native reproducers (/verif/replay)
+
+
+def replay_bin(name: str, args: list, timeout=600):
+    """Build /verif/replay (real crates of /repo, real files) and run one reproducer binary.
+    Returns (reproduced: bool|None, detail)."""
+    tgt = CACHE / "replay-target"
+    env = dict(ENV)
+    env["CARGO_TARGET_DIR"] = str(tgt)
+    lockf = open(CACHE / "replay.lock", "w")
+    fcntl.flock(lockf, fcntl.LOCK_EX)
+    try:
+        shutil.copy(REPO / "Cargo.lock", VERIF / "replay" / "Cargo.lock")
+        outs = []
+        for profile in ("dev", "release"):
+            cmd = ["cargo", "run", "--offline", "-q", "--bin", name] + (["--release"] if profile == "release" else []) + ["--"] + [str(a) for a in args]
+            rc, out, _ = run_shell(cmd, VERIF / "replay", timeout, env=env)
+            last = (out.strip().splitlines() or [""])[-1]
+            outs.append((profile, rc, last))
+    finally:
+        lockf.close()
+    detail = "; ".join(f"{p}: rc={rc} {l[:300]}" for p, rc, l in outs)
+    if any(rc == 1 and "REPRODUCED" in l for _, rc, l in outs):
+        return True, detail
+    if all(rc == 0 for _, rc, _ in outs):
+        return False, detail
+    return None, detail
